@@ -316,6 +316,7 @@ func run(r *mon.Run) {
 				wg.Add(1)
 				go func(gi, rounds int) {
 					defer wg.Done()
+					defer r.Recover("concurrent workload")
 					for k := gi; k < len(kept); k += 8 {
 						w := kept[(k+rounds*3)%len(kept)]
 						var sink slowWriter
